@@ -202,7 +202,8 @@ def run(rep, tier, seed):
   global SHARE
   SHARE = tier != "thorough"   # quick: one loader per worker process; violations re-checked with a fresh one
   progs = progspace.programs(tier)
-  progs += [(i, src, None) for i, src in defspace.programs(tier)]
+  # PS-def: the quick set in both tiers (the thorough tier's budget goes into the 36 k PS-core sequences)
+  progs += [(i, src, None) for i, src in defspace.programs("quick")]
   progs += progspace.padded_programs(tier)
   for (i, src, seq), (bad, info, mseq) in vrun.pmap(work, progs, seed=seed, maxtasks=400, progress=2000):
     rep.evaluations += 1
